@@ -636,9 +636,12 @@ class Conv:
                     dotted(it) in ('np.newaxis', 'numpy.newaxis'):
                 continue
             conv.append(self.index_item(it))
-        if self.erase_broadcast and all(isinstance(c, Slice) and c.is_full()
-                                        for c in conv):
-            return base
+        if self.erase_broadcast:
+            # x[i, :] is x[i]; x[:, :] is x
+            while conv and isinstance(conv[-1], Slice) and conv[-1].is_full():
+                conv.pop()
+            if not conv:
+                return base
         # index into a literal tuple atom with a constant -> the element
         ba = base.single_atom()
         if ba is not None and t.atoms[ba].head == 'tuple' and len(conv) == 1 \
@@ -647,6 +650,13 @@ class Conv:
             if k.denominator == 1 and -len(t.atoms[ba].args) <= k < len(
                     t.atoms[ba].args):
                 return t.atoms[ba].args[int(k)]
+        if base.single_atom() is None and len(conv) == 1 and \
+                isinstance(conv[0], RF) and base.atoms():
+            # element-wise arithmetic commutes with picking one element:
+            # (a*b + c)[i] == a[i]*b[i] + c[i]
+            i = conv[0]
+            return t.rewrite(base, lambda a, at, nargs: t.atom(
+                'idx', (RF(t, p_atom(a)), i)), _memo=None) if True else None
         return t.atom('idx', tuple([base] + conv))
 
     def call_name(self, f):
@@ -685,16 +695,18 @@ class Conv:
                           extra=kwn or None)
         recv_rf = None
         if recv is not None:
-            d = dotted(recv)
-            if d is not None and d.split('.')[0] not in self.env:
-                # self.foo(...) / obj.attr.method(...)
-                if name in REDUCERS or name in ERASED_CALLS:
-                    recv_rf = self.expr(recv)
-                else:
-                    return t.atom('call', tuple(args + kwv), extra=(
-                        'fn:' + self.canon(d) + '.' + name,) + kwn)
-            else:
+            oc, self.on_call = self.on_call, None
+            try:
                 recv_rf = self.expr(recv)
+            finally:
+                self.on_call = oc
+            ra = recv_rf.single_atom()
+            if ra is not None and t.atoms[ra].head in ('name', 'attr') and \
+                    name not in REDUCERS and name not in ERASED_CALLS:
+                # method of a named object: one canonical spelling whether the
+                # receiver was written directly or through a local alias
+                return t.atom('call', tuple(args + kwv), extra=(
+                    'fn:' + t.atoms[ra].args[0] + '.' + name,) + kwn)
         if recv_rf is not None:
             args = [recv_rf] + args
             if name not in REDUCERS and name not in ERASED_CALLS:
